@@ -459,7 +459,33 @@ TASK_STATE_MACHINE_DATA = {
 }
 
 
+# The events that carry the status of the items of a with items task are defined for a task that
+# is running, pausing or canceling. A task that has yet to reach running (or that is resuming)
+# handles them like a running task and a paused task like a pausing task.
+WITH_ITEMS_PROXY_STATUSES = {
+    statuses.UNSET: statuses.RUNNING,
+    statuses.REQUESTED: statuses.RUNNING,
+    statuses.SCHEDULED: statuses.RUNNING,
+    statuses.DELAYED: statuses.RUNNING,
+    statuses.RESUMING: statuses.RUNNING,
+    statuses.PAUSED: statuses.PAUSING,
+}
+
+
 class TaskStateMachine(object):
+    @classmethod
+    def get_transitions(cls, task_status, event_name, base_event_name):
+        transitions = TASK_STATE_MACHINE_DATA[task_status]
+
+        if (
+            event_name not in transitions
+            and event_name != base_event_name
+            and task_status in WITH_ITEMS_PROXY_STATUSES
+        ):
+            transitions = TASK_STATE_MACHINE_DATA[WITH_ITEMS_PROXY_STATUSES[task_status]]
+
+        return transitions
+
     @classmethod
     def is_transition_valid(cls, old_status, new_status):
         if old_status is None:
@@ -591,11 +617,13 @@ class TaskStateMachine(object):
         if current_task_status not in TASK_STATE_MACHINE_DATA:
             raise exc.InvalidTaskStatusTransition(current_task_status, event_name)
 
+        transitions = cls.get_transitions(current_task_status, event_name, ac_ex_event.name)
+
         # If no transition is identified, then there is no status change.
-        if event_name not in TASK_STATE_MACHINE_DATA[current_task_status]:
+        if event_name not in transitions:
             return
 
-        new_task_status = TASK_STATE_MACHINE_DATA[current_task_status][event_name]
+        new_task_status = transitions[event_name]
 
         # Assign new status to the task flow entry.
         task_state["status"] = new_task_status
@@ -638,11 +666,13 @@ class TaskStateMachine(object):
         if current_task_status not in TASK_STATE_MACHINE_DATA:
             raise exc.InvalidTaskStatusTransition(current_task_status, event_name)
 
+        transitions = cls.get_transitions(current_task_status, event_name, wf_ex_event.name)
+
         # If no transition is identified, then there is no status change.
-        if event_name not in TASK_STATE_MACHINE_DATA[current_task_status]:
+        if event_name not in transitions:
             return
 
-        new_task_status = TASK_STATE_MACHINE_DATA[current_task_status][event_name]
+        new_task_status = transitions[event_name]
 
         # Assign new status to the task flow entry.
         task_state["status"] = new_task_status
